@@ -80,6 +80,8 @@ def build_partial(spec, omit, counter, via='never-assigned'):
     omit = set(tuple(o) for o in omit)
 
     def wrap(obj):
+        if counter is None:      # (a wrapped object cannot be deep-copied meaningfully: only for systems that must be rejected)
+            return obj
         orig = obj.calculate
 
         def counted(*a, **kw):
@@ -117,6 +119,9 @@ class Missing(Sub):
     def enumerate(self, tier):
         for si, spec in enumerate(FIXED):
             its = items_of(spec)
+            # nothing missing, but one table was replaced by an equal, newly created and completely filled one
+            for kind in ('density', 'diameter', 'potential', 'closure', 'omega', 'domain'):
+                yield {'system': si, 'omit': [], 'replace': kind}
             for r in (1, 2):
                 for omit in itertools.combinations(its, r):
                     yield {'system': si, 'omit': [list(o) for o in omit]}
@@ -126,6 +131,25 @@ class Missing(Sub):
         out = Outcome()
         sig = PID + '/missing/'
         spec = FIXED[case['system']]
+        if case.get('replace'):
+            P = target()
+            s, s2, ref = build_partial(spec, [], None), build_partial(spec, [], None), build_partial(spec, [], None)
+            setattr(s, case['replace'], getattr(s2, case['replace']))
+            try:
+                pr = S.quiet(s.createPRISM)
+            except Exception as exc:   # noqa
+                out.fail(sig + 'complete-system-rejected', 'createPRISM() raised %s: %s on a completely specified System whose %s table was replaced by an equal new one' % (
+                    type(exc).__name__, exc, case['replace']))
+                return out
+            pr0 = S.quiet(ref.createPRISM)
+            n = len(spec['types']) ** 2 * spec['domain']['length']
+            x = 0.01 * np.cos(np.arange(n) * 0.37)
+            y, y0 = S.quiet(pr.cost, x.copy()), S.quiet(pr0.cost, x.copy())
+            if np.shape(y) != np.shape(y0) or not np.array_equal(y, y0, equal_nan=True):
+                out.fail(sig + 'replaced-table-not-used', 'cost(x) of a System whose %s was replaced by an equal new object differs from the original System' % case['replace'])
+            out.nontrivial = True
+            out.label('rank=%d' % len(spec['types']), 'complete-with-replaced-' + case['replace'])
+            return out
         kinds = '+'.join(sorted(o[0] for o in case['omit']))
         for how in ('createPRISM', 'solve'):
             counter = [0]
